@@ -485,11 +485,15 @@ pub fn run(seed: u64, tier: &str, w: &mut dyn Write) -> usize {
     if timing { eprintln!("c20 dummy shapes done {:?}", t0.elapsed()); }
     // conditional verification
     let picks: Vec<&str> = if thorough { vec!["std_small", "arity2_cap1_c3_lookup", "zk_lookup", "fixed_12", "arity1_cap0", "wide_rows"] }
-                           else { vec!["std_small", "arity1_cap0"] };
-    let want = if thorough { 4 } else { 1 };
+                           else { vec!["std_small", "arity2_cap1_c3_lookup", "zk_lookup", "arity1_cap0"] };   // one shape without and one with lookup tables
+    let want = if thorough { 4 } else { 2 };
     let mut done = 0;
-    for (iname, prog, icfg, a) in builts.iter().filter(|x| picks.contains(&x.0)) {
+    let mut had_lookup = false;
+    for (iname, prog, icfg, a) in picks.iter().filter_map(|p| builts.iter().find(|x| x.0 == *p)) {
         if done >= want { break; }
+        // quick tier: the second subject must use lookup tables (openings with lookup_zs / next_lookup_zs)
+        if !thorough && done == 1 && a.data.common.num_lookup_polys == 0 && !had_lookup && picks.iter().any(|p| p.contains("lookup")) && !iname.contains("arity1") { continue; }
+        had_lookup |= a.data.common.num_lookup_polys != 0;
         let o = match build_and_prove(&c06::sibling_program(prog), icfg) {
             Ok(o) if o.data.common == a.data.common && o.data.verifier_only != a.data.verifier_only => o,
             _ => { writeln!(w, "c20 {iname} sibling-build = - # exp=? no same-shape circuit with different verifier data from this program").unwrap(); n += 1; continue; }
